@@ -260,4 +260,7 @@ MotorsPost == (Okc /\ call.m = "motors_enable") =>
    LET c1 == Clamp05(call.a[1]) c2 == Clamp05(call.a[2]) IN
    /\ board.m1 = (c1 # 0) /\ board.m2 = (c2 # 0)
    /\ (c1 # 0 => board.res = c1) /\ (c1 = 0 /\ c2 # 0 => board.res = c2)
+(* ---- liveness: every public call that was begun returns - whatever the device does (silence, faults, error lines) ---- *)
+FairSpec == Spec /\ WF_vars(Entry \/ Step \/ Write \/ Read \/ Validate \/ After \/ RawDone \/ RawFail \/ Finish \/ EndCall \/ RecErr \/ Disconnect \/ Connect)
+EveryCallReturns == (pc # "idle") ~> (pc = "idle")
 =============================================================================
